@@ -1,8 +1,8 @@
 (* Model of codec/form_codec.go: FormCodec.Marshal / Unmarshal, setStructToForm,
    mapFormToStruct, setWithProperType and the set*Field helpers.  Definitions only.
    reflect indexing is a partial operation: out of range is the explicit outcome [Panic].
-   The definitions without suffix follow the REPAIRED code (commits efb4dc4, 82ba321 in /repo);
-   the [_prefix] variants follow the code as pinned and document the two defects.
+   The definitions without suffix follow the REPAIRED code (commits efb4dc4, 82ba321, 2ea78bd in /repo);
+   the [_prefix] variants follow the code as pinned and document the defects.
    Not modelled: float fields (tested only) and time.Time fields (setTimeField). *)
 From Coq Require Import Strings.String Strings.Byte.
 From Coq Require Import List Arith NArith ZArith Bool Lia.
@@ -156,28 +156,36 @@ Definition map_fields_prefix := map_fields_gen Panic.
 
 (* the destination of FormCodec.Unmarshal as its type switch sees it *)
 Inductive fdst :=
-| TNil                    (* nil interface *)
-| TValues                 (* *url.Values, *map[string][]string, *interface{} *)
-| TStruct (fs : fields)   (* pointer(s) to struct *)
+| TNil                        (* nil interface *)
+| TValues                     (* *url.Values, *map[string][]string, *interface{} *)
+| TStruct (fs : fields)       (* pointer(s) to struct *)
+| TIface (assignable : bool)  (* pointer(s) to an interface type other than *interface{} itself:
+                                 can it hold a url.Values?  pointer to *interface{}: yes, *io.Reader: no *)
 | TOther.
 
 Inductive fres := RNil | RValues (q : values) | RStruct (fs : fields).
 
-(* form_codec.go:FormCodec.Unmarshal; the result is the destination's content afterwards *)
-Definition form_unmarshal_gen (over : outcome (list leaf)) (data : bytes) (d : fdst) : outcome fres :=
+(* form_codec.go:FormCodec.Unmarshal; the result is the destination's content afterwards.
+   [fixed] selects the repaired code (commits 82ba321, 2ea78bd) or the code as pinned: the
+   pinned code called reflect.Value.Set without checking assignability (panic) and returned
+   an error after a successful Set. *)
+Definition form_unmarshal_gen (fixed : bool) (data : bytes) (d : fdst) : outcome fres :=
   match parse_query data with
   | None => Err
   | Some form =>
       match d with
       | TNil => Ok RNil
       | TValues => Ok (RValues form)
-      | TStruct fs => omap RStruct (map_fields_gen over form fs)
+      | TStruct fs => omap RStruct (map_fields_gen (if fixed then Ok [] else Panic) form fs)
+      | TIface assignable =>
+          if fixed then (if assignable then Ok (RValues form) else Err)
+          else (if assignable then Err else Panic)
       | TOther => Err
       end
   end.
 
-Definition form_unmarshal := form_unmarshal_gen (Ok []).
-Definition form_unmarshal_prefix := form_unmarshal_gen Panic.
+Definition form_unmarshal := form_unmarshal_gen true.
+Definition form_unmarshal_prefix := form_unmarshal_gen false.
 
 (* ---- vocabulary of the round-trip statement ---- *)
 Fixpoint zero_fields (fs : fields) : fields :=
